@@ -15,12 +15,35 @@ import math
 import random
 
 import numpy as np
+from fractions import Fraction
 
 PI = math.pi
 
 
 def rng(tag, case):
-    return random.Random(f"{tag}:{case}")
+    r = random.Random(f"{tag}:{case}")
+    _NP[0] = r.random() < 0.25          # in a quarter of the cases integers / floats are handed over as numpy scalars wherever the library takes numbers
+    return r
+
+
+_NP = [False]
+
+
+def npi(x):
+    """an integer, as a numpy integer in numpy-typed cases"""
+    return np.int64(x) if _NP[0] else x
+
+
+def npf(x):
+    if not _NP[0] or isinstance(x, bool):
+        return x
+    if isinstance(x, int):
+        return np.int64(x)
+    if isinstance(x, float):
+        return np.float64(x)
+    if isinstance(x, complex):
+        return np.complex128(x)
+    return x
 
 
 # ----------------------------------------------------------------------------------------------------------------- references
@@ -97,19 +120,26 @@ def same_up_to_phase(A, B, tol=1e-9):
 
 
 # ----------------------------------------------------------------------------------------------------------------- circuits
-_ANGLES = [0.0, PI / 2, -PI / 2, PI, 2 * PI, 0.3, -1.7, 4.9, 1e-9, 1, 2, -1, -2, -3, 7.25, 2.6 * PI, -3.5 * PI]
+_ANGLES = [0.0, PI / 2, -PI / 2, PI, 2 * PI, 0.3, -1.7, 4.9, 1e-9, 1, 2, -1, -2, -3, 7.25, 2.6 * PI, -3.5 * PI,
+           Fraction(1, 3), Fraction(-7, 2), 1e-8, 3e-9, -2e-8, PI + 1e-6, 3 * PI - 2e-5, PI / 2 + 1e-9, 401 * PI + 5e-3, 2 * PI - 3e-7]
 
 
 def _custom_defs():
     import sympy
     from orquestra.quantum.circuits import CustomGateDefinition
-    a, b = sympy.symbols("ga gb")
+    a, b, c_ = sympy.symbols("ga gb gc")
     return [
         CustomGateDefinition("rc_flip", sympy.Matrix([[-1, 0], [0, 1]]), ()),
         CustomGateDefinition("rc_rot", sympy.Matrix([[sympy.cos(a), -sympy.exp(sympy.I * b) * sympy.sin(a)],
                                                       [sympy.exp(-sympy.I * b) * sympy.sin(a), sympy.cos(a)]]), (a, b)),
         CustomGateDefinition("rc_perm", sympy.Matrix([[0, 0, 1, 0], [1, 0, 0, 0], [0, 0, 0, 1], [0, 1, 0, 0]]), ()),
         CustomGateDefinition("rc_ph2", sympy.Matrix([[1, 0, 0, 0], [0, sympy.exp(sympy.I * a), 0, 0], [0, 0, 1, 0], [0, 0, 0, sympy.exp(-sympy.I * a / 2)]]), (a,)),
+        # declared parameters the matrix does not use (in front of / between the used ones)
+        CustomGateDefinition("rc_unused", sympy.Matrix([[sympy.cos(a), -sympy.sin(a) * sympy.exp(sympy.I * c_)], [sympy.sin(a) * sympy.exp(-sympy.I * c_), sympy.cos(a)]]), (a, b, c_)),
+        CustomGateDefinition("rc_unused2", sympy.Matrix([[1, 0], [0, sympy.exp(sympy.I * b)]]), (a, b)),
+        # a fixed gate that is ALMOST self-adjoint / almost diagonal (3e-6 away)
+        CustomGateDefinition("rc_nearherm", sympy.Matrix([[1, 0], [0, -sympy.exp(3e-6 * sympy.I)]]), ()),
+        CustomGateDefinition("rc_neardiag", sympy.Matrix([[sympy.cos(2e-6), -sympy.sin(2e-6)], [sympy.sin(2e-6), sympy.cos(2e-6)]]), ()),
     ]
 
 
@@ -191,7 +221,14 @@ def rand_base_gate(r, max_qubits, symbolic=False, custom=True, exclude=(), param
             name = d.gate_name
             if d.matrix.shape[0] > 2 ** max_qubits or (all_symbolic and not d.params_ordering):
                 continue
-            g = d(*[P() for _ in d.params_ordering])
+            if (symbolic or all_symbolic) and d.params_ordering and param is None and r.random() < 0.35:
+                # arguments that mention the definition's OWN symbols (swapped, shifted, compound): substitution must be simultaneous and by position
+                own = list(d.params_ordering)
+                g = d(*[r.choice([r.choice(own), r.choice(own) + 1, 2 * r.choice(own), r.choice(own) + r.choice(own)] + ([] if all_symbolic else [0.3])) for _ in own])
+                if all_symbolic and not list(g.free_symbols):
+                    g = d(*[P() for _ in d.params_ordering])
+            else:
+                g = d(*[P() for _ in d.params_ordering])
         if name not in exclude:
             return g
     return C.RX(P()) if all_symbolic else C.X
@@ -298,7 +335,7 @@ def _rand_ops(r, L, live, dup, shared, symbolic, wrappers, custom, exclude, all_
         else:
             g = rand_gate(r, len(live), symbolic, wrappers, custom, exclude, param=shared, all_symbolic=all_symbolic)
             qs = r.sample(live, g.num_qubits)
-        ops.append(g(*qs))
+        ops.append(g(*[npi(q) for q in qs]))
     return ops
 
 
@@ -357,7 +394,7 @@ def check_C01(case):
 
 
 def _values_for(r, symbols):
-    return {s: r.choice([0.0, 0.37, -1.3, 2.9, PI / 2, 1, -2]) if r.random() < 0.5 else r.uniform(-3, 3) for s in symbols}
+    return {s: r.choice([0.0, 0.37, -1.3, 2.9, PI / 2, 1, -2, Fraction(1, 3), Fraction(-5, 4)]) if r.random() < 0.5 else r.uniform(-3, 3) for s in symbols}
 
 
 def check_C02(case):
@@ -472,8 +509,13 @@ def check_C06(case):
         first = {s: vals[s] for s in fs[:k]}
         second = {s: vals[s] for s in fs[k:]}
         part = c.bind(first)
-        if set(part.free_symbols) != set(fs[k:]):
-            return False, f"after binding {list(first)} the free symbols of {c} are {part.free_symbols}"
+        left = set()
+        for op in c.operations:
+            for p_ in op.params:
+                if isinstance(p_, sympy.Expr):
+                    left |= p_.subs(first).free_symbols          # a zero value may make another symbol of a product disappear
+        if set(part.free_symbols) != left:
+            return False, f"after binding {first} the free symbols of {c} are {part.free_symbols}, the substituted parameters depend on {sorted(left, key=str)}"
         two = part.bind(second)
         if not np.allclose(ref_unitary(two), ref, atol=1e-9):
             return False, f"binding {c} in two steps {list(first)} / {list(second)} differs from binding once"
@@ -524,7 +566,16 @@ def _params_equal(p, q):
         fs = sorted(d.free_symbols, key=str)
         pts = [{s: 0.37 + 0.61 * i for i, s in enumerate(fs)}, {s: -1.2 + 0.45 * i for i, s in enumerate(fs)}]
         return all(abs(complex(d.subs(pt))) <= 1e-12 * max(1.0, abs(complex(sympy.sympify(p).subs(pt)))) for pt in pts)
-    return p == q and type(p) is type(q) or (p == q)
+    if p == q:
+        return True
+    try:        # Python numbers come back as sympy numbers: the same number, each part to 1e-15 of ITS OWN size (a tiny imaginary part next to a large real one is data)
+        a, b = complex(p), complex(sympy.N(q, 40))
+    except Exception:
+        return False
+    return abs(a.real - b.real) <= 1e-15 * abs(a.real) and abs(a.imag - b.imag) <= 1e-15 * abs(a.imag)
+
+
+_EXOTIC = [1 + 1e-10j, 40 + 4e-9j, 1e-10 + 1j, 2 + 3j, 1e-300, 1e300, 10 ** 20, 0.1 + 0.2, 123456789.123456789, 5e-324, 1e-9j, -2.5j, 1e-17, 7e22, 1 + 1e-14j]
 
 
 def check_C05(case):
@@ -533,14 +584,24 @@ def check_C05(case):
     member of a circuit list"""
     from orquestra.quantum.circuits import circuit_from_dict, circuitset_from_dict, to_dict
     r = rng("C05", case)
+    _NP[0] = False          # numpy integers are not JSON-serialisable (json.dumps refuses them on the unchanged tree): outside this property's inputs
     sym = r.random() < 0.6
     c = rand_circuit(r, symbolic=sym, max_width=5, max_ops=7)
+    exotic = False
+    if r.random() < 0.4 and c.operations:      # Python numbers of unusual size / shape as parameters (parts 1e-10 .. 1e-14 of the other part, 1e+-300, big integers)
+        from orquestra.quantum.circuits import Circuit as _C
+        ops = list(c.operations)
+        for j, o in enumerate(ops):
+            if o.params and r.random() < 0.6 and all(not hasattr(x, "free_symbols") for x in o.params):
+                ops[j] = o.replace_params(tuple(r.choice(_EXOTIC) if r.random() < 0.7 else x for x in o.params))
+                exotic = True
+        c = _C(ops, n_qubits=c.n_qubits)
     d = to_dict(c)
     back = circuit_from_dict(json.loads(json.dumps(d)))
     msg = _same_structure(c, back)
     if msg:
         return False, f"{c} -> JSON -> {back}: {msg}"
-    if back != c:
+    if back != c and not exotic:       # (the library's own == is not exact for floats such as 1e300 that come back as long decimal literals: parameters are compared above)
         return False, f"deserialised circuit {back} does not compare equal to the original {c}"
     if list(back.free_symbols) != list(c.free_symbols):
         return False, f"free symbols {c.free_symbols} became {back.free_symbols}"
@@ -686,7 +747,8 @@ def check_C07(case):
     nq = base.num_qubits
     chain = []
     for _ in range(r.randint(1, 4)):
-        opts = ["dagger", "controlled"] + (["power"] if nq <= 2 and not symbolic and sum(1 for w in chain if w[0] == "power") < 2 else [])
+        exact = any(isinstance(x, Fraction) for x in base.params)      # exact rationals stay symbolic in sympy: matrix powers of them take minutes
+        opts = ["dagger", "controlled"] + (["power"] if nq <= 2 and not symbolic and not exact and sum(1 for w in chain if w[0] == "power") < 2 else [])
         w = r.choice(opts)
         if w == "dagger":
             g = g.dagger
@@ -742,11 +804,11 @@ def rand_coeff(r, kinds=("int", "float", "neg", "complex", "imag")):
 
 def rand_term(r, n, kinds=("int", "float", "neg", "complex", "imag"), paulis="XYZ", allow_identity=True):
     from orquestra.quantum.operators import PauliTerm
-    c = rand_coeff(r, kinds)
+    c = npf(rand_coeff(r, kinds))
     if allow_identity and r.random() < 0.15:
         return PauliTerm("I0", c) if r.random() < 0.5 else PauliTerm({}, c)
     qs = r.sample(range(n), r.randint(1, n))
-    ops = {q: r.choice(paulis) for q in qs}
+    ops = {npi(q): r.choice(paulis) for q in qs}
     form = r.randrange(3)
     if form == 0:
         return PauliTerm(ops, c)
@@ -924,6 +986,7 @@ def check_C11(case):
     import tempfile
     from orquestra.quantum.operators import PauliSum, PauliTerm, convert_dict_to_op, convert_op_to_dict, load_operator, load_operator_set, save_operator, save_operator_set
     r = rng("C11", case)
+    _NP[0] = False          # see check_C05
     n = r.randint(1, 12 if r.random() < 0.3 else 4)
     nn = min(n, 4)
     qmap = sorted(r.sample(range(n), nn))
@@ -994,7 +1057,7 @@ def rand_z_op(r, n, max_terms=6):
             terms.append(PauliTerm("I0", c))
         else:
             qs = r.sample(range(n), r.randint(1, max(1, min(n, 4))))
-            terms.append(PauliTerm({q: "Z" for q in qs}, c))
+            terms.append(PauliTerm({npi(q): "Z" for q in qs}, npf(c)))
     if r.random() < 0.3:
         terms.insert(r.randrange(len(terms) + 1), r.choice(terms))
     return PauliSum(terms)
@@ -1002,8 +1065,8 @@ def rand_z_op(r, n, max_terms=6):
 
 def rand_shots(r, n, max_shots=40):
     N = r.randint(1, max_shots)
-    pool = [tuple(r.randint(0, 1) for _ in range(n)) for _ in range(r.randint(1, 6))]
-    return [r.choice(pool) if r.random() < 0.8 else tuple(r.randint(0, 1) for _ in range(n)) for _ in range(N)]
+    pool = [tuple(npi(r.randint(0, 1)) for _ in range(n)) for _ in range(r.randint(1, 6))]
+    return [r.choice(pool) if r.random() < 0.8 else tuple(npi(r.randint(0, 1)) for _ in range(n)) for _ in range(N)]
 
 
 def check_C10(case):
@@ -1051,6 +1114,18 @@ def check_C10(case):
     cov = (corr - np.outer(vals, vals)) / (N - 1 if bessel else N)
     if not np.allclose(ev.estimator_covariances[0], cov, rtol=1e-7, atol=1e-12):
         return False, f"covariances (bessel={bessel}) differ for {op} on {want_counts}"
+    # the same operator with its terms listed in another order: every statistic is permuted along, nothing else changes
+    perm = list(range(len(terms)))
+    r.shuffle(perm)
+    from orquestra.quantum.operators import PauliSum as _PS
+    evp = m.get_expectation_values(_PS([terms[i] for i in perm]), use_bessel_correction=bessel)
+    if not np.allclose(evp.values, [vals[i] for i in perm], rtol=1e-9, atol=1e-12) or not np.allclose(evp.correlations[0], corr[np.ix_(perm, perm)], rtol=1e-9, atol=1e-12) \
+            or not np.allclose(evp.estimator_covariances[0], cov[np.ix_(perm, perm)], rtol=1e-7, atol=1e-12):
+        return False, f"listing the terms of {op} in the order {perm} does not permute the statistics accordingly (shots {want_counts})"
+    items = list(want_counts.items())
+    r.shuffle(items)
+    if dict(Measurements.from_counts(dict(items)).get_counts()) != want_counts:
+        return False, f"from_counts depends on the order of the dictionary {dict(items)}"
     par = get_parities_from_measurements(list(shots), op)
     for i, t in enumerate(terms):
         even = sum(1 for s in shots if _eps(s, t.qubits) == 1)
@@ -1087,8 +1162,8 @@ def check_C13(case):
         j, k = r.sample(range(L), 2)
         circs[k] = circs[j]
         widths[k] = widths[j]
-    nc, nn, mult = expand_sample_sizes(list(circs), list(ns), m)
-    nc, nn, mult = list(nc), list(nn), list(mult)
+    nc, nn, mult = expand_sample_sizes(list(circs), (np.array(ns, dtype=int) if _NP[0] and ns else list(ns)), npi(m))
+    nc, nn, mult = list(nc), [int(x) for x in nn], [int(x) for x in mult]
     want_mult = [-(-k // m) for k in ns]
     if mult != want_mult or len(nc) != sum(want_mult) or len(nn) != len(nc):
         return False, f"requests {ns} with at most {m} per copy: multiplicities {mult}, {len(nc)} copies / {len(nn)} counts (expected {want_mult})"
@@ -1122,7 +1197,7 @@ def check_C13(case):
             return False, f"requests {ns}, max {m}: combined bitstrings of circuit {i} hold {len(combb[i])} shots / wrong order"
     if L:
         b = r.choice([1, 2, 3, L, L + 1, 100])
-        out = [(list(c), n) for c, n in split_into_batches(list(circs), list(ns), b)]
+        out = [(list(c), int(n)) for c, n in split_into_batches(list(circs), (np.array(ns, dtype=int) if _NP[0] else list(ns)), npi(b))]
         flat = [c for chunk, _ in out for c in chunk]
         if len(flat) != L or any(x is not y for x, y in zip(flat, circs)):
             return False, f"batches of at most {b} do not cover the {L} circuits once, in order"
@@ -1143,7 +1218,7 @@ def check_C13(case):
     vals = [r.choice([0, 1, 2, 3, 0.5, 0.1, 1 / 3]) if r.random() < 0.7 else r.uniform(0, 9) for _ in range(r.randint(1, 7))]
     if sum(vals) > 0:
         T = r.choice([0, 1, 2, 3, 7, 10, 100, 1001, 99999])
-        out = list(scale_and_discretize(list(vals), T))
+        out = list(scale_and_discretize((np.array(vals, dtype=float) if _NP[0] else list(vals)), npi(T)))
         s = sum(vals)
         if len(out) != len(vals) or sum(out) != T or any(int(x) != x or x < 0 for x in out) or any(abs(x - T * v / s) >= 1 + 1e-9 for x, v in zip(out, vals)):
             return False, f"scale_and_discretize({vals}, {T}) = {out}"
@@ -1344,7 +1419,7 @@ def check_C17(case):
         return keys, ws
     keys, ws = rand_dist()
     as_str = r.random() < 0.4
-    raw = {("".join(map(str, k)) if as_str else k): w for k, w in zip(keys, ws)}
+    raw = {("".join(map(str, k)) if as_str else tuple(npi(b) for b in k)): npf(w) for k, w in zip(keys, ws)}
     D = MOD(dict(raw), normalize=True)
     tot = sum(ws)
     got = {tuple(int(c) for c in k) if isinstance(k, str) else tuple(k): v for k, v in D.distribution_dict.items()}
@@ -1352,7 +1427,7 @@ def check_C17(case):
         return False, f"MOD({raw}) holds {D.distribution_dict}: not the input proportions normalised to 1"
     qs = r.sample(range(n), r.randint(1, n))
     before = dict(D.distribution_dict)
-    sub = D.subdistribution(list(qs)) if hasattr(D, "subdistribution") else None
+    sub = D.subdistribution(r.choice([list(qs), tuple(qs), np.array(qs), [npi(q) for q in qs]]))
     want = {}
     for k, v in got.items():
         pk = tuple(k[q] for q in qs)
@@ -1369,7 +1444,16 @@ def check_C17(case):
     a, b = compute_mmd(Dt, E, {"sigma": sig}), compute_mmd(E, Dt, {"sigma": sig})
     if abs(a - b) > 1e-12 or a < -1e-12 or abs(compute_mmd(Dt, Dt, {"sigma": sig})) > 1e-14:
         return False, f"squared MMD laws fail: {a} / reversed {b} / self {compute_mmd(Dt, Dt, {'sigma': sig})} for {Dt} and {E}"
+    # the same two distributions with their outcomes inserted in another order: every distance is a function of the distributions, not of insertion order
+    ik, jk = list(Dt.distribution_dict.items()), list(E.distribution_dict.items())
+    r.shuffle(ik)
+    r.shuffle(jk)
+    Ds, Es = MOD(dict(ik), normalize=False), MOD(dict(jk), normalize=False)
+    if abs(compute_mmd(Ds, E, {"sigma": sig}) - a) > 1e-12 or abs(compute_mmd(Dt, Es, {"sigma": sig}) - a) > 1e-12 or abs(compute_mmd(Ds, Dt, {"sigma": sig})) > 1e-14:
+        return False, f"squared MMD depends on the insertion order of the outcomes: {Dt} / {Ds} against {E} / {Es}"
     eps = r.choice([1e-9, 1e-6, 1e-3])
+    if abs(nll(Ds, Es, {"epsilon": eps}) - nll(Dt, E, {"epsilon": eps})) > 1e-9 or abs(jsd(Ds, Es, {"epsilon": eps}) - jsd(Dt, E, {"epsilon": eps})) > 1e-9:
+        return False, f"clipped NLL / symmetrised divergence depends on the insertion order of the outcomes: {Dt} / {Ds} against {E} / {Es}"
     P, Q = Dt.distribution_dict, E.distribution_dict
     ent = -sum(v * math.log(v) for v in P.values() if v > 0)
     x = nll(Dt, E, {"epsilon": eps})
@@ -1380,6 +1464,8 @@ def check_C17(case):
         return False, f"symmetrised divergence not symmetric for {Dt}, {E}"
     with tempfile.TemporaryDirectory() as td:
         f = os.path.join(td, "d.json")
+        if _NP[0]:          # numpy integers are not JSON-serialisable: save the same distribution with Python numbers
+            D = MOD({tuple(int(b) for b in k): float(v) for k, v in got.items()}, normalize=False)
         save_measurement_outcome_distribution(D, f)
         ld = load_measurement_outcome_distribution(f)
         lgot = {tuple(int(c) for c in k) if isinstance(k, str) else tuple(k): v for k, v in ld.distribution_dict.items()}
@@ -1448,6 +1534,10 @@ def check_C04(case):
     return True, "ok"
 
 
+def flat_(x):
+    return np.array(x, dtype=complex).reshape(-1).real
+
+
 def check_C12(case):
     """random histories of 1..10 element / slice assignments on a random normalised state of 1..4 qubits (accepted: norm-preserving phase
     changes, swaps, re-assignments of the old value; rejected: anything that changes the norm): after each step the object is valid, a
@@ -1463,6 +1553,23 @@ def check_C12(case):
         v[r.randrange(2 ** n)] = r.choice([1, -1, 1j])
     if r.random() < 0.4:
         return _c12_symbolic(r, n)
+    # construction: any length, any norm, several container kinds - accepted exactly for a power-of-two length and squared magnitudes summing to 1
+    L = r.choice([1, 2, 3, 4, 5, 6, 7, 8, 9, 12, 15, 16, 17, 31, 32, 33, 64, 100, 255, 256, 257, 1000, 1024])
+    amps = np.array([complex(r.gauss(0, 1), r.gauss(0, 1)) for _ in range(L)])
+    amps /= np.linalg.norm(amps)
+    factor = r.choice([1.0, 1.0, 1.0, 1 + 1e-13, 1 - 1e-13, 1.01, 0.99, 1 + 1e-3, 1 - 1e-3, 2.0, 0.0, 0.5])
+    vec = amps * factor
+    arg = r.choice([lambda: vec.copy(), lambda: list(vec), lambda: tuple(vec), lambda: vec.copy().reshape(-1, 1), lambda: [complex(x) for x in vec]])()
+    ok_expected = (L & (L - 1) == 0) and abs(factor - 1) < 1e-9
+    try:
+        wv = Wavefunction(arg)
+        accepted = True
+    except ValueError:
+        accepted = False
+    if accepted != ok_expected:
+        return False, f"a vector of {L} amplitudes with norm {factor} given as {type(arg).__name__} was {'accepted' if accepted else 'rejected'}"
+    if accepted and (abs(float(np.sum(wv.get_probabilities())) - 1) > 1e-6 or len(wv) != L or not np.allclose(flat_(wv.get_probabilities()), np.abs(vec) ** 2, atol=1e-12)):
+        return False, f"a valid vector of {L} amplitudes: probabilities are not the squared magnitudes summing to 1"
     storage = r.choice(["flat", "flat", "column", "bound"])
     if storage == "column":
         w = Wavefunction(v.copy().reshape(-1, 1))
@@ -1689,7 +1796,7 @@ def check_C14(case):
                     circs.append(Circuit([X(q) for q in range(w) if r.random() < 0.5], n_qubits=w))
                 mode = r.choice(["single", "int", "list", "tuple", "list", "badlen", "badval", "badint"])
                 nc, nj, ex0 = run.n_circuits_executed, run.n_jobs_executed, len(probe.executed)
-                req = [r.randint(1, 12) for _ in range(L)]
+                req = [npi(r.randint(1, 12)) for _ in range(L)]
                 bad = False
                 try:
                     if mode == "single":
@@ -1717,7 +1824,7 @@ def check_C14(case):
                         bad = True
                         out = run.run_batch_and_measure(circs, req2)
                     else:
-                        out = run.run_batch_and_measure(circs, list(req) if mode == "list" else tuple(req))
+                        out = run.run_batch_and_measure(circs, (np.array(req, dtype=int) if _NP[0] and req else list(req)) if mode == "list" else tuple(req))
                 except ValueError:
                     if not bad:
                         return False, f"{rn} step {step}: valid call ({mode}, shots {req}) rejected"
